@@ -15,8 +15,9 @@ TRUSTED = [
     "Lean 4.33 kernel; axioms propext, Classical.choice, Quot.sound only",
     "the acceptance check (wfFresh, noGenTag) is evaluated by the Lean driver on every file the real generators write; its soundness for re-preservability is the theorem C07_accepted_is_represervable "
     "(through the preservation model of C01); an independent Python evaluation (regex for <<<...>>>, pairing / duplicate scan of USER tags) must agree with the driver on every file",
-    "the naming-scheme theorems (injectivity per template, <action>_<event>, plain vs suffixed) are about the schemes read off the shipped templates; that every file of every model is accepted is observed on the "
-    "generated sample, not proved (the template sets use tags outside the engine model): partial",
+    "the naming-scheme theorems (injectivity per template, <action>_<event>, plain vs suffixed, whole-file uniqueness C07_file_keys_nodup) are about the schemes of the shipped templates, and "
+    "C07_shipped_sm_schemes_classified / C07_shipped_other_templates_static (decide +kernel over the templates regenerated from the tree) show that the templates use no other scheme; that every file of "
+    "every model is accepted (no generator tag left, static tags distinct from dynamic ones) is observed on the generated sample, not proved (the template sets use tags outside the engine model): partial",
     "model domain: identifiers without underscore in state/event/action/guard names (near-miss variants included), names that do not collide with the hooks derived from other names (On<State>Exit ...)",
 ]
 GEN_TAG = re.compile(r"<<<([^<>]*)>>>")
